@@ -83,6 +83,25 @@ def e2e_case(runner, r, oc, reqs, pend, kinds, regens, big=False):
                 if w:
                     edits[rel] = w
             hist["edits"] = edits
+            if r.random() < 0.4:
+                # the output directory is not the generator's alone: other files live there - some of them look like generated
+                # ones (same tag names, hand-written code) - and some generated files are checked out read-only
+                names_ = sorted(e2e.snapshot(real))
+                other = {"README.txt": "notes\n", os.path.join("old", "Legacy.h"): "// {{{USER_HEADER_INCLUDES}}}\n#include <legacy.h>\n// {{{USER_HEADER_INCLUDES}}}\nint legacy;\n"}
+                if names_:
+                    stem = r.choice(names_)
+                    other[stem + ".orig"] = "// {{{USER_PUBLIC}}}\nint kept_by_hand;\n// {{{USER_PUBLIC}}}\n"
+                    other[os.path.join("backup", os.path.basename(stem))] = "// {{{USER_HEADER_INCLUDES}}}\n#include <backup.h>\n// {{{USER_HEADER_INCLUDES}}}\n"
+                for rel, text in other.items():
+                    p_ = os.path.join(real, rel)
+                    os.makedirs(os.path.dirname(p_), exist_ok=True)
+                    with open(p_, "w") as f:
+                        f.write(text)
+                for rel in names_:
+                    if r.random() < 0.3:
+                        os.chmod(os.path.join(real, rel), 0o444)
+                hist["other_files"] = sorted(other)
+                oc.stat("trees_with_files_of_others")
             before = e2e.snapshot(real)
             oc.stat("backend_" + model["backend"])
             oc.stat("edited_tags", sum(len(v) for v in edits.values()))
